@@ -270,6 +270,61 @@ def audit(prop, required):
     return res
 
 
+# Shared translator ties: tables several properties rely on, regenerated from /repo on every run of each of them.
+# prop -> list of tie modules under lean/IcingaProofs/Tie/ (all of them consume IcingaProofs/Gen/Enums.lean).
+SHARED_TIES = {"C01": ["EnumsC01"], "C02": ["EnumsC02"], "C03": ["EnumsC03"], "C06": ["EnumsC06"]}
+
+
+def shared_ties(prop):
+    """Regenerate the shared generated tables this property depends on (gen/enums.py), rebuild the tie modules that
+    state the model's encodings against them, and audit their theorems like the property's own (forbidden tokens,
+    #print axioms).  Returns {"theorems": [...], "axioms": {...}}; raises TieBroken on a lost anchor, a theorem that
+    no longer holds for the source's current values, or an axiom outside the allowed set."""
+    mods = SHARED_TIES.get(prop, [])
+    res = {"theorems": [], "axioms": {}}
+    if not mods:
+        return res
+    import importlib.util
+    spec = importlib.util.spec_from_file_location("gen_enums", os.path.join(ROOT, "gen", "enums.py"))
+    gen = importlib.util.module_from_spec(spec)
+    spec.loader.exec_module(gen)
+    try:
+        with Lock("gen_enums"):
+            gen.generate(REPO, BUILD, os.path.join(LEAN, "IcingaProofs", "Gen", "Enums.lean"), os.path.join(WORK, "gen-cache"))
+    except gen.Lost as e:
+        raise TieBroken(f"gen:{prop}:enums-anchor", str(e))
+    for mod in mods:
+        path = os.path.join(LEAN, "IcingaProofs", "Tie", mod + ".lean")
+        body = strip_comments(open(path, encoding="utf-8").read())
+        hits = [f"Tie/{mod}.lean:{n}: {l.strip()}" for n, l in enumerate(body.split("\n"), 1) if FORBIDDEN.search(l)]
+        if hits:
+            raise TieBroken(f"proof:{prop}:tie-{mod}:forbidden-token", "\n".join(hits))
+        rc, out = lake_build([f"IcingaProofs.Tie.{mod}"])
+        if rc != 0:
+            raise TieBroken(f"proof:{prop}:tie-{mod}:build", out[-6000:])
+        m = NAMESPACE_RE.search(body)
+        ns = m.group(1) + "." if m else ""
+        thms = [ns + t for t in THEOREM_RE.findall(body)]
+        os.makedirs(os.path.join(WORK, "audit"), exist_ok=True)
+        af = os.path.join(WORK, "audit", f"{prop}_tie_{mod}.lean")
+        with open(af, "w") as f:
+            f.write(f"import IcingaProofs.Tie.{mod}\n" + "".join(f"#print axioms {t}\n" for t in thms))
+        rc, out = run(["lake", "env", "lean", af], cwd=LEAN)
+        if rc != 0:
+            raise TieBroken(f"proof:{prop}:tie-{mod}:audit", out[-4000:])
+        text = out.replace("\n ", " ")
+        for t in thms:
+            mm = re.search(r"'" + re.escape(t) + r"' (does not depend on any axioms|depends on axioms: \[([^\]]*)\])", text)
+            if not mm:
+                raise TieBroken(f"proof:{prop}:tie-{mod}:axioms:{t}", "no #print axioms output")
+            axs = [a.strip() for a in (mm.group(2) or "").split(",") if a.strip()]
+            if [a for a in axs if a not in ALLOWED_AXIOMS]:
+                raise TieBroken(f"proof:{prop}:tie-{mod}:axioms:{t}", ",".join(axs))
+            res["theorems"].append(t)
+            res["axioms"][t] = axs
+    return res
+
+
 def build_driver(prop):
     exe = "vd_" + prop.lower()
     rc, out = lake_build([exe])
